@@ -119,6 +119,19 @@ impl ObjectWriter for ObjectWriterFS {
         let relative_path = content_location_path
             .strip_prefix('/')
             .unwrap_or(content_location_path);
+        // The object must be stored inside the destination folder
+        if std::path::Path::new(relative_path).components().any(|c| {
+            !matches!(
+                c,
+                std::path::Component::Normal(_) | std::path::Component::CurDir
+            )
+        }) {
+            return Err(FluteError::new(format!(
+                "Content location {:?} is outside of the destination folder",
+                self.meta.content_location
+            )));
+        }
+
         let destination = self.dest.join(relative_path);
         log::info!(
             "Create destination {:?} {:?} {:?}",
